@@ -337,6 +337,33 @@ def c_ghost_axioms(ctx, spec):
         keys = [minleaf[id(c)] for c in C[id(x)]]
         if len(set(keys)) != len(keys):
             return ("children_facts: ordering keys of siblings are distinct", keys)
+    # wf_theory_tokens: a rank (height) that strictly decreases towards the children, NL / SNL token counts,
+    # least tokens of two stored children carry different numbers, distinct tokens carry distinct numbers
+    hgt = {}
+
+    def height(n):
+        if id(n) not in hgt:
+            hgt[id(n)] = 0 if not n.children else 1 + max(height(c) for c in n.children)
+        return hgt[id(n)]
+    for x in nodes:
+        nl = len(leaves(x))
+        if not (height(x) >= 0 and nl >= 1):
+            return ("wf_theory_tokens: hgt >= 0, NL >= 1", (height(x), nl))
+        if not x.children and not ("num" in x.data and nl == 1):
+            return ("wf_theory_tokens: a token carries a number and NL == 1", sorted(x.data))
+        snl = 0
+        for k, c in enumerate(x.children):
+            if not height(c) < height(x):
+                return ("wf_theory_tokens: hgt(child) < hgt(x)", (height(c), height(x)))
+            snl += len(leaves(c))
+        if x.children and snl != nl:
+            return ("wf_theory_tokens: NL(x) == SNL(x, nchild) (stored child lists partition the tokens)", (snl, nl))
+        firsts = [leaves(c)[0].data["num"] for c in x.children]
+        if len(set(firsts)) != len(firsts):
+            return ("wf_theory_tokens: least tokens of different stored children carry different numbers", firsts)
+        toks = leaves(x)
+        if len(set(t.data["num"] for t in toks)) != len(toks) or len(set(id(t) for t in toks)) != len(toks):
+            return ("wf_theory_tokens: distinct tokens below a node carry distinct numbers", [t.data["num"] for t in toks])
     return None
 
 
